@@ -31,11 +31,12 @@ Known(c, get) == {g \in DOMAIN get : HasField(c, g)}
 (* every getter returns the bits the layout assigns to it (value right-aligned in the logged bytes, high bits zero) *)
 GettersMatch(c, raw, get) ==
     Len(raw) >= Table[c].size /\
+    LET hb == HdrBits(c, raw) IN            \* the header's bits once, not once per getter
     \A g \in Known(c, get) :
         LET f == FieldOf(c, g)
             all == BytesToBits(get[g])
         IN /\ Len(all) >= f.w
-           /\ SubSeq(all, Len(all) - f.w + 1, Len(all)) = Get(c, raw, f)
+           /\ SubSeq(all, Len(all) - f.w + 1, Len(all)) = SubSeq(hb, f.o + 1, f.o + f.w)
            /\ \A i \in 1..(Len(all) - f.w) : all[i] = 0
 
 (* values derived from several fields: version strings of the TECMP capture-module status, validity of a payload type *)
